@@ -3,8 +3,13 @@
 (* definition of the root module at start-up).                                               *)
 EXTENDS Electrolytes_MC
 
-LawPts_t == LimPts(I_t, I0_t, Z_w, A_t) \cup ExtPts(I_t, I0_q, Z_w, A_t, B_t, Sz_t, Cx_q)
-                \cup DavPts(I_t, I0_t, Z_w, A_t, Cd_t)
+(* (the point sets are built single-threaded at start-up: the extended/Davies grids use a reduced *)
+(* charge set and 9 of the 13 ionic strengths)                                                    *)
+I_tt == I_t \ {R(1, 10000), R(1, 25), R(4, 1), R(1, 3)}
+Z_tt == {-4, -2, -1, 0, 1, 2, 3}
+LawPts_t == LimPts(I_t, I0_t, Z_w, A_t) \cup ExtPts(I_tt, I0_q, Z_tt, A_t, B_t, Sz_t, Cx_q)
+                \cup ExtPts({R(1, 100), R(2, 5)}, {R(1, 4)}, {-2, 0, 1}, A_q, B_q, Sz_q, Cx_q)
+                \cup DavPts(I_tt, I0_t, Z_tt, A_t, Cd_t)
 
 ABPts_t == ABPts(T_t, Ep_t, Rh_t) \cup ABPtsB({R(250, 1), R(5963, 20), R(650, 1)}, Ep_q, Rh_q, {R(1, 4), R(2, 1), R(1, 100)})
 
